@@ -289,6 +289,18 @@ def body(ctx, case):
                       and np.array_equal(window_rows(line.logits, line.logit_coords, mode), window_rows(ls[j], cs[j], mode)),
                       "page_ocr_result_on_wrong_line",
                       lambda: "line %d (id %r) got %r expected %r; " % (j, line.id, line.transcription, ts[j]) + desc())
+    # the caller's crop arrays re-filled with other lines (same array objects, new content): results follow the content
+    if 0 < n <= 12:
+        kw = dict(sparse_logits=mode in ("sparse", "tight"), tight_crop_logits=mode == "tight", no_logits=mode == "nologits")
+        held = [im.copy() for im in imgs]
+        with contextlib.redirect_stdout(io.StringIO()):
+            ctx.must("process_lines_raises", eng.process_lines, held, **kw)
+            for h_, im in zip(held, imgs):
+                h_[...] = im[:, ::-1]
+            second = ctx.must("process_lines_raises", eng.process_lines, held, **kw)
+        mirrored = ctx.must("process_lines_raises", run, eng, [np.ascontiguousarray(im[:, ::-1]) for im in imgs], mode)
+        ctx.check(list(second[0]) == list(mirrored[0]), "result_for_refilled_crop_arrays_is_that_of_their_earlier_content",
+                  lambda: "got %r, the new content gives %r; " % (list(second[0]), list(mirrored[0])) + desc())
     # the logits handed back by the first call are still what they were after all the later calls of the same engine
     for j in range(min(n, len(ls))):
         if snap[j] is not None and ls[j] is not None:
